@@ -96,6 +96,14 @@ func OracleDurable(tr *Trace, prop string) []Finding {
 				switch r.K {
 				case "cons.ack.call":
 					openAck[r.Seq] = true
+					// every event acknowledged at once, inside its delivery and hence in delivery order, moves the position: an
+					// acknowledgement the library silently ignored would otherwise look like one that "did not advance" anything
+					if tr.Spec.PNow == 1 && tr.Spec.PDefer == 0 && len(tr.Spec.Rollbacks) == 0 && r.Seq > flagged && r.Seq > resume {
+						flagged, flaggedBy = r.Seq, "ack"
+						if r.Seq > settled {
+							settled = r.Seq
+						}
+					}
 				case "cons.ack.ret":
 					delete(openAck, r.Seq)
 				case "cons.track":
@@ -176,6 +184,12 @@ func c05Spec(rng *rand.Rand, i int) (*SessSpec, string) {
 	if i%16 == 9 {
 		kind = "selfstop"
 	}
+	if i%64 == 14 {
+		kind = "bigsave"
+	}
+	if i%16 == 4 {
+		kind = "ack-during-open"
+	}
 	sp := &SessSpec{NumVB: 1 + rng.Intn(6), Nodes: 1 + rng.Intn(2), AckSeed: rng.Int63(), Backlog: map[int][][]ItemSpec{}, Backend: "mem"}
 	sp.PNow, sp.PDefer = 0.4, 0.5
 	o := &HistOpts{NumVB: sp.NumVB, PReserved: 0.12, PSystem: 0.08, PSeqAdv: 0.2, MaxItems: 4}
@@ -203,6 +217,38 @@ func c05Spec(rng *rand.Rand, i int) (*SessSpec, string) {
 		if rng.Intn(2) == 0 || kind == "selfstop" {
 			sp.Backlog[vb] = append(sp.Backlog[vb], genSnap(rng, o, &ctr))
 		}
+	}
+	if kind == "ack-during-open" {
+		// events of the vBuckets whose streams are already open are delivered and acknowledged while Open() is still waiting
+		// for the last stream request; nothing is acknowledged afterwards: the next save stores those positions
+		sp.NumVB = 2 + rng.Intn(4)
+		sp.Nodes = 1
+		sp.Backend = []string{"mem", "cb", "file"}[rng.Intn(3)]
+		sp.PNow, sp.PDefer = 1, 0
+		sp.Backlog = map[int][][]ItemSpec{}
+		for vb := 0; vb < sp.NumVB-1; vb++ {
+			sp.Backlog[vb] = append(sp.Backlog[vb], genSnap(rng, o, &ctr))
+		}
+		sp.ReqHold = map[int]int{sp.NumVB - 1: 1}
+		sp.StartSteps = []Step{{Op: "waithold", N: 1}, {Op: "waitopen", VB: 0}, {Op: "sleep", Ms: 80}, {Op: "releasereq"}}
+		sp.Steps = []Step{{Op: "barrier"}, {Op: "check"}}
+		return sp, kind
+	}
+	if kind == "bigsave" {
+		// one save that carries more than a hundred vBuckets, one of whose writes the store rejects: the save reports the
+		// failure and the next one stores everything
+		sp.NumVB = 130 + rng.Intn(60)
+		sp.Nodes = 1
+		sp.Backend = "cb"
+		sp.PNow, sp.PDefer = 1, 0
+		sp.Backlog = map[int][][]ItemSpec{}
+		for vb := 0; vb < sp.NumVB; vb++ {
+			ctr++
+			sp.Backlog[vb] = [][]ItemSpec{{{K: "m", Key: []byte(fmt.Sprintf("b%d", ctr)), Val: []byte("{}")}}}
+		}
+		sp.CBFaults = []CBFault{{Nth: 1 + rng.Intn(100), Kind: "status", Status: cbsim.StNoAccess}}
+		sp.Steps = []Step{{Op: "barrier"}, {Op: "commit"}, {Op: "commit"}, {Op: "check"}}
+		return sp, kind
 	}
 	if kind == "selfstop" {
 		// finite mode with automatic checkpointing and a long interval: every stream ends at the sequence number sampled at
@@ -271,6 +317,10 @@ func c05Spec(rng *rand.Rand, i int) (*SessSpec, string) {
 			sp.Steps = append(sp.Steps, Step{Op: "barrier"}, Step{Op: "ack", Sel: "all"}, Step{Op: "commit"}, Step{Op: "commit"})
 		}
 		sp.Steps = append(sp.Steps, Step{Op: "check"})
+	}
+	if kind == "file" && i%16 == 7 {
+		// the file system rejects a save (the directory is gone), then works again: the next save stores what the rejected one carried
+		sp.Steps = append(sp.Steps, app(), Step{Op: "barrier"}, Step{Op: "ack", Sel: "all"}, Step{Op: "breakfile"}, Step{Op: "commit"}, Step{Op: "fixfile"}, Step{Op: "commit"}, Step{Op: "check"})
 	}
 	if kind == "plain" || kind == "cb" || kind == "file" {
 		// out-of-order settling: the newest pending events first, a save, then the older ones ("stale" acknowledgements)
